@@ -87,6 +87,7 @@ class Renderer(object):
         self.U = RefPrinter(g90e)
         self.file_retracted = False
         self.file_retract_len = 0.0
+        self.last_e_text = None
 
     # ------------------------------------------------------------------------------------------------
     # rendering of abstract motion ops in the file's current frame
@@ -139,6 +140,7 @@ class Renderer(object):
         got = float(num) * U.unit - (U.E if U.abs_e else 0.0)
         if (de > 0 and got <= 1e-9) or (de < 0 and got >= -1e-9):
             return None
+        self.last_e_text = num if U.abs_e else None
         return "E" + self._spell(num)
 
     def render(self, op):
@@ -164,6 +166,13 @@ class Renderer(object):
                     if op.get("wipe"):
                         self.file_retracted = True
                         self.file_retract_len = -op["de"]
+            elif op.get("e_same") and len(parts) > 1:
+                # restates, literally, the E word the file wrote last (only while nothing else touched E since)
+                num = self.last_e_text if U.abs_e else "0"
+                if num is not None:
+                    parts.append("E" + self._spell(num))
+            if len(parts) == 1:
+                return []
             if op.get("f") is not None:
                 parts.append("F" + fmt(op["f"] / U.unit, 3))
             return [self._join(parts)]
@@ -227,11 +236,14 @@ class Renderer(object):
                 line += " F" + fmt(op["f"] / U.unit, 3)
             return [line]
         if k == "mode":
+            self.last_e_text = None
             return ["G91" if op["rel"] else "G90"]
         if k == "units":
+            self.last_e_text = None
             return ["G20" if op["inch"] else "G21"]
         if k == "g92e":
-            return ["G92 E" + fmt(op["e"] / U.unit, self._nd() + 1)]
+            self.last_e_text = fmt(op["e"] / U.unit, self._nd() + 1)
+            return ["G92 E" + self.last_e_text]
         if k == "g92":
             parts = ["G92"]
             for l in "xyz":
@@ -727,10 +739,14 @@ class PrintWorld(Renderer):
             # coordinate shifted by a retraction length of the file (the G92 half of a retract / recover pair)
             if code == "G92" and w_.get("E") is not None and self.tracking():
                 v_mm = w_["E"] * self.F.unit
-                bases = [self.U.E] + ([self._u_before_e] if self._u_before_e is not None else [])
-                shifts = [0.0] + sorted(self.file_retract_amounts)
+                ub = self._u_before_e if self._u_before_e is not None else self.U.E
+                amounts = sorted(self.file_retract_amounts)
+                # exit / re-sync: E after the command; retraction re-done on the printer: G92 E(e + len), G1 E(e);
+                # owed recovery: G92 E(e_before - len), G1 E(e_before), then the command itself
+                cands = [self.U.E, ub] + [self.U.E + a for a in amounts] + [ub + a for a in amounts] \
+                    + [ub - a for a in amounts]
                 tol = 2 * self._etol() + 1e-9 * abs(self.U.E)
-                if not any(abs(v_mm - (b + sgn * a)) <= tol for b in bases for a in shifts for sgn in (1, -1)):
+                if not any(abs(v_mm - c) <= tol for c in cands):
                     self.fail("C07", "g92e", "synthesised command %r sets E to %.6f mm on the printer; the file's "
                               "extruder coordinate is %.6f (before this command %s)"
                               % (wc, v_mm, self.U.E, self._u_before_e))
@@ -894,6 +910,7 @@ class PrintWorld(Renderer):
         elif k == "print_start":
             self.comm.printing = True
             self.file_retracted = False
+            self.last_e_text = None
             self.bus.fire(Events.PRINT_STARTED)
             self._script("beforePrintStarted")
             if op.get("deliver", True):
@@ -937,6 +954,7 @@ class PrintWorld(Renderer):
 
     def _apply_encoding(self, enc):
         """C08: from here on the same tool path is expressed in another encoding."""
+        self.last_e_text = None
         kind = enc["kind"]
         if kind == "inch":
             self.comm.send_file_line("G20")
@@ -1099,5 +1117,6 @@ def prerender(cfg, ops, g90e=False):
         else:
             if op["op"] == "print_start":
                 r.file_retracted = False
+                r.last_e_text = None
             out.append(op)
     return out
